@@ -145,7 +145,10 @@ DSize == /\ d \in {"sizeread", "metaread"}
                ELSE Eval(text, <<"phases succeeded">>, <<"phases failed">>, "main")
          /\ UNCHANGED <<env, mode, pc, py, file, need>>
 
-Next == PyWrite \/ PyRead \/ PyDone \/ DMain \/ DPhase \/ DSize
+\* a finished sender (done or given up) idles: with deadlock checking on, a reported deadlock is
+\* a genuinely stuck pair (sender waiting for a reply, reader waiting for bytes that never come)
+Idle == py \in {"done", "fail"} /\ UNCHANGED vars
+Next == PyWrite \/ PyRead \/ PyDone \/ DMain \/ DPhase \/ DSize \/ Idle
 Spec == Init /\ [][Next]_vars /\ WF_vars(Next)
 
 Arrives == py = "done" => heldEnv = Encode(env)
